@@ -380,6 +380,24 @@ fn main() {
         println!("NONE tried={}", boxed_programs().len());
         return;
     }
+    if args.get(1).map(|s| s.as_str()) == Some("alias-scope") {
+        // known finding F6 (C17): the `use` alias table is global -- two modules importing different items under the
+        // same short name overwrite each other, so a reference resolves to the definition of the LAST `use`
+        let src = "mod x { pub fn f() { 1.0 } }\nmod y { pub fn f() { 2.0 } }\nmod a {\n  use x::f\n  pub fn g() { f() }\n}\nmod b {\n  use y::f\n  pub fn g() { f() }\n}\nfn dsp() { a::g() * 10.0 + b::g() }\n";
+        match run_vm(src, 1) {
+            Ok(v) if v[0] == 12.0 => println!("HOLDS"),
+            Ok(v) => println!("FAILS C17[every accepted reference resolves to the definition its module path denotes] a::g() calls `f` imported by `use x::f` inside module a, but resolves to y::f (imported in module b): dsp = {} instead of 12", v[0]),
+            Err(e) => println!("HOLDS (program rejected: {e})"),
+        }
+        return;
+    }
+    if args.get(1).map(|s| s.as_str()) == Some("run-src") {
+        // developer aid: run a program file on the real VM for n samples and print the outputs / the diagnostics
+        let src = std::fs::read_to_string(&args[2]).unwrap();
+        let n: usize = args.get(3).and_then(|s| s.parse().ok()).unwrap_or(4);
+        match run_vm(&src, n) { Ok(v) => println!("OUT {v:?}"), Err(e) => println!("ERR {e}") }
+        return;
+    }
     if args.get(1).map(|s| s.as_str()) == Some("delay-pair") {
         let v: Vec<u64> = args[2..6].iter().map(|x| x.parse().unwrap()).collect();
         match delay_pair_violation(v[0], v[1], v[2], v[3]) {
